@@ -203,11 +203,11 @@ def jobs_C11(tier, scale):
 def jobs_C12(tier, scale):
     q = tier == "quick"
     cl = _classes(["DW", "UW"])
-    jobs = [graph_job("C12", "dij", cl, tier, scale, 4000, 100000, "generated graphs n<=12, integer weights 0..16 (exact), weights also set through setEdgeWeight", nmax=12, xmax=17,
-                      extra="wmode int", max_size=60, sets=12),
+    jobs = [graph_job("C12", "dij", cl, tier, scale, 4000, 100000, "generated graphs n<=12, integer weights 0..16 (exact), weights also set through setEdgeWeight; 30 % searched on a copy, a container-constructor rebuild or a moved-to object", nmax=12, xmax=17,
+                      extra="wmode int", max_size=60, sets=12, via=30),
             graph_job("C12", "dij", cl, tier, scale, 96, 2400, "a validated search repeated after 2^8-1 (7 of 8 cases) or 2^16-1 other searches that never reach its source", nmin=2, nmax=9, xmax=17,
                       extra="wmode int", max_size=60, wrap_permille=1000, noshrink=1),
-            graph_job("C12", "dij", cl, tier, scale, 2000, 60000, "generated graphs, weights k/8 (exact)", nmax=10, xmax=4096, extra="wmode frac", max_size=60),
+            graph_job("C12", "dij", cl, tier, scale, 2000, 60000, "generated graphs, weights k/8 (exact); 30 % searched on a copy, a container-constructor rebuild or a moved-to object", nmax=10, xmax=4096, extra="wmode frac", max_size=60, via=30),
             graph_job("C12", "dij", cl, tier, scale, 1500, 40000, "generated graphs, weights k*2^-60 (exact, all below machine epsilon)", nmax=10, xmax=17, extra="wmode tiny", max_size=60),
             graph_job("C12", "dij", cl, tier, scale, 1000, 30000, "generated graphs, weights k*2^40 (exact)", nmax=10, xmax=17, extra="wmode huge", max_size=60),
             graph_job("C12", "dij", cl, tier, scale, 2000, 60000, "generated graphs, weights k/7 (rounded, tolerance 2n*2^-52*max(1,ref)); weights also set through setEdgeWeight", nmax=10, xmax=600, extra="wmode rounded", max_size=60, sets=12),
